@@ -159,6 +159,7 @@ type exec struct {
 	exactMaps map[*ssa.MakeMap]bool
 	mapN     int
 	allocNamed map[string]bool // source-level variables that live in an allocated cell
+	entryMeasure *smt.Term     // value of the function's `decreases` measure on entry (recursion)
 }
 
 type ownedParam struct {
@@ -279,6 +280,11 @@ func (x *exec) run() {
 		st.assume(t, fmt.Sprintf("requires[%d] %s", i, r.Pos))
 	}
 	x.old = st.heapSnapshot()
+	if d := x.c.C.Decreases; d != nil {
+		ev := x.evalAt(st, x.entry)
+		ev.Pos = d.Pos
+		x.entryMeasure = ev.as64(ev.coerce(ev.Eval(d.E), tInt))
+	}
 	x.useLemmas(st)
 	// vacuity guard: the precondition must be satisfiable
 	x.res.Queries = append(x.res.Queries, &Query{Func: x.res.Key, Ob: x.obName("cover.requires"), Kind: "cover", Cover: true,
